@@ -149,8 +149,11 @@ ObsDone(o0, e) ==
                                !.queue = Put(@, r, Without(QueueOf(o, r), e.q))]
               \* a failing request closes its own open exchange (give-up, RST)
               mine == {k \in DOMAIN o.ex : o.ex[k].q = e.q /\ o.ex[k].res = "none"}
+              \* with its exchange still unresolved (no ACK, no Reset, no transport error reported for the
+              \* endpoint) the only failure the statement allows is the time-out-class one
+              o4 == FlagIf(o3, e.cls \notin {"resp", "timeout"} /\ mine # {}, "C03_GiveUpTimeout")
           IN IF e.cls = "resp" THEN o3
-             ELSE [o3 EXCEPT !.ex = [k \in DOMAIN @ |->
+             ELSE [o4 EXCEPT !.ex = [k \in DOMAIN @ |->
                                        IF k \in mine THEN [@[k] EXCEPT !.res = "fail", !.resAt = e.t] ELSE @[k]]]
 
 ObsErr(o0, e) ==
